@@ -50,8 +50,8 @@ def refine_case(task):
 
 
 def run(ctx):
-    tasks = solverexp.standard_plan(ctx, VIS, alphabets_fixed=("A001", "A013"),
-                                    alphabet_pool=("A01", "Am201", "A3210", "Ahalf"), n_seeded=1,
+    tasks = solverexp.standard_plan(ctx, VIS, alphabets_fixed=("A001", "A013", "Ahalf"),
+                                    alphabet_pool=("A01", "Am201", "A3210"), n_seeded=1,
                                     depths_quick=(7, 6, 5, 5, 4), depths_thorough=(9, 8, 7, 6, 6))
     res, agg = solverexp.execute(tasks)
     rtasks = []
